@@ -1,7 +1,8 @@
 /-
   C10 lemmas, part 3: one round of `_ical_pull` restated over `eolR` as a function `round`
   (`pull_round`): `(q, none)` = go round again with `q`, `(q, some r)` = return.
-  The line under way that does not fit the stash is marked by `skip` and passed over as a whole.
+  The stash grows with the line (`esccpy` is handed one byte more than it reads); `skip` stays in the
+  text for allocation failure, which the model does not have.
 -/
 import Echse.Lemmas.Ical2
 namespace Echse.Ical
@@ -35,10 +36,10 @@ def procStep (p : Parser) : Parser × Option PullRes :=
   if p.skip then ({ p with skip := false, stash := [] }, none)
   else if p.stash.length ≠ 0 then procRes (doProc p) else (p, none)
 
-/-- copy to the stash, or find that the line does not fit -/
+/-- copy to the stash (the `none` branch is the allocation failure of the C code: never taken, `esccpy_fits`) -/
 def copyRest (p : Parser) : Parser :=
   if p.skip then p else
-    match (esccpy (stashSize - p.stash.length) (p.buf.drop p.bix)).1 with
+    match (esccpy ((p.buf.drop p.bix).length + 1) (p.buf.drop p.bix)).1 with
     | some o => { p with stash := p.stash ++ o, sentinel := 0 }
     | none => { p with skip := true, stash := [] }
 
@@ -49,7 +50,7 @@ def stashRest (p : Parser) (s : Bool) : Parser × PullRes :=
 /-- the parser after copying the complete line of raw length `e` to the stash -/
 def takeLine (p : Parser) (e : Nat) : Parser :=
   if p.skip then { p with bix := p.bix + e } else
-    match (esccpy (stashSize - p.stash.length) ((p.buf.drop p.bix).take e)).1 with
+    match (esccpy (((p.buf.drop p.bix).take e).length + 1) ((p.buf.drop p.bix).take e)).1 with
     | some o => { p with bix := p.bix + e, stash := p.stash ++ o, sentinel := 0 }
     | none => { p with bix := p.bix + e, skip := true, sentinel := 0 }
 
@@ -95,7 +96,6 @@ theorem chop_eq (f : Nat) (p : Parser) (k : Parser → Parser × PullRes)
     (hk : ∀ q, k q = cont (pull f) (procStep q)) :
     (have b := List.drop p.bix p.buf;
       have bz := b.length;
-      have six := p.stash.length;
       have eol := findEol b (bz + 1) 0;
       have noEol :=
         match eol with
@@ -105,7 +105,7 @@ theorem chop_eq (f : Nat) (p : Parser) (k : Parser → Parser × PullRes)
         have p : Parser :=
           if p.skip = true then p
           else
-            match esccpy (stashSize - six) b with
+            match esccpy (b.length + 1) b with
             | (some o, _) => { p with stash := p.stash ++ o, sentinel := 0 }
             | (none, _) => { p with skip := true, stash := [] };
         (({ p with eolp := p.eolp || eol.isSome, bix := p.buf.length } : Parser), PullRes.need)
@@ -115,7 +115,7 @@ theorem chop_eq (f : Nat) (p : Parser) (k : Parser → Parser × PullRes)
         have p : Parser :=
           if p.skip = true then p
           else
-            match esccpy (stashSize - six) (List.take llen b) with
+            match esccpy ((List.take llen b).length + 1) (List.take llen b) with
             | (some o, _) => { p with stash := p.stash ++ o, sentinel := 0 }
             | (none, sent) => { p with skip := true, sentinel := sent };
         k p) = cont (pull f) (chopR p) := by
@@ -125,14 +125,14 @@ theorem chop_eq (f : Nat) (p : Parser) (k : Parser → Parser × PullRes)
   unfold chopR
   have hcopy : (if p.skip = true then p
       else
-        match esccpy (stashSize - p.stash.length) (List.drop p.bix p.buf) with
+        match esccpy ((List.drop p.bix p.buf).length + 1) (List.drop p.bix p.buf) with
         | (some o, _) => { p with stash := p.stash ++ o, sentinel := 0 }
         | (none, _) => { p with skip := true, stash := [] }) = copyRest p := by
     unfold copyRest
     by_cases hs : p.skip = true
     · rw [if_pos hs, if_pos hs]
     · rw [if_neg hs, if_neg hs]
-      rcases hx : esccpy (stashSize - p.stash.length) (List.drop p.bix p.buf) with ⟨r, sent⟩
+      rcases hx : esccpy ((List.drop p.bix p.buf).length + 1) (List.drop p.bix p.buf) with ⟨r, sent⟩
       cases r <;> rfl
   cases he : eolR (List.drop p.bix p.buf) with
   | none =>
@@ -146,15 +146,15 @@ theorem chop_eq (f : Nat) (p : Parser) (k : Parser → Parser × PullRes)
     · simp only [hge, decide_false, Bool.false_eq_true, if_false]
       have ht : (if p.skip = true then ({ p with bix := p.bix + e } : Parser)
           else
-            match esccpy (stashSize - p.stash.length) (List.take e (List.drop p.bix p.buf)) with
+            match esccpy ((List.take e (List.drop p.bix p.buf)).length + 1) (List.take e (List.drop p.bix p.buf)) with
             | (some o, _) => { p with bix := p.bix + e, stash := p.stash ++ o, sentinel := 0 }
             | (none, sent) => { p with bix := p.bix + e, skip := true, sentinel := sent }) = takeLine p e := by
         unfold takeLine
         by_cases hs : p.skip = true
         · rw [if_pos hs, if_pos hs]
         · rw [if_neg hs, if_neg hs]
-          have hz := esccpy_snd (stashSize - p.stash.length) (List.take e (List.drop p.bix p.buf))
-          rcases hx : esccpy (stashSize - p.stash.length) (List.take e (List.drop p.bix p.buf)) with ⟨r, sent⟩
+          have hz := esccpy_snd ((List.take e (List.drop p.bix p.buf)).length + 1) (List.take e (List.drop p.bix p.buf))
+          rcases hx : esccpy ((List.take e (List.drop p.bix p.buf)).length + 1) (List.take e (List.drop p.bix p.buf)) with ⟨r, sent⟩
           rw [hx] at hz; simp only at hz; subst hz
           cases r <;> rfl
       rw [ht]
